@@ -289,7 +289,7 @@ fn main() {
         }
     }
     let quick = ctx.quick() || ctx.variant != "std";
-    let depth = if quick { 3 } else { 4 };
+    let depth = if quick { 3 } else { 5 };
     ctx.watchdog(180, || J::Str("no progress in the C18 explorer".into()));
     let mut stats = Stats::default();
     let alphabet = hist_alphabet();
